@@ -19,7 +19,11 @@ EXPLANATION = (
     ".check are conjunctions of isinstance(own kind) and bit_width (and signed) equalities and engine DataType.check "
     "resolves through Engine.dtype first; (R4) every registered class is @immutable and classes defining __eq__ keep "
     "a hash; (R5) generated number families are called with names/sizes for which classes exist; (R6) duplicate "
-    "Arrow* definitions agree. NOT decided: closure of the runtime registry under resolve/print/resolve, "
+    "Arrow* definitions agree (bodies compared modulo local names); (R7) every from_parametrized_dtype passes, for each "
+    "argument slot of the native type built by the class initialiser, one of the init fields that feed that slot, with a "
+    "value derived from the source dtype (so E.dtype(native) keeps unit / tz / categories / precision ...); (R8) no "
+    "Engine.dtype resolver writes shared state (no memo keyed by native dtype objects, whose equality is coarser than "
+    "pandera's). NOT decided: closure of the runtime registry under resolve/print/resolve, "
     "parameterised types, anything depending on what pandas/numpy/pyarrow objects print."
 )
 LEVEL_RULE = "one obligation per registry row / key / family member / duplicate pair found in the current tree"
@@ -543,12 +547,10 @@ def r8_pure_resolution(ctx):
 
 
 def _norm_stmt(m, s):
-    s2 = ast.parse(ast.unparse(s)).body[0]
-    for n in ast.walk(s2):
-        if isinstance(n, (ast.FunctionDef, ast.AsyncFunctionDef)):
-            if n.body and isinstance(n.body[0], ast.Expr) and isinstance(n.body[0].value, ast.Constant) and isinstance(n.body[0].value.value, str):
-                n.body = n.body[1:] or [ast.Pass()]
-    return ast.unparse(s2)
+    from ..util import canon_function_text
+    if isinstance(s, (ast.FunctionDef, ast.AsyncFunctionDef)):
+        return canon_function_text(s, keep_params=False)
+    return ast.unparse(s)
 
 
 def run(ctx):
